@@ -103,6 +103,8 @@ func replyOf(f *hx.Fetch, a ans) *hx.Reply {
 		rep.Status = 503
 	case "abort":
 		rep.Abort = true
+	case "truncate":
+		rep.Truncate = true
 	}
 	return rep
 }
@@ -163,11 +165,31 @@ func (m *entryModel) afterFetch(ver int64, a ans, now int64) {
 
 // burstCheck judges a burst of requests on one key issued while the clock stood at now and the
 // system was quiescent before and after. Returns a description of the first refutation or "".
-func (m *entryModel) burstCheck(now int64, results []*hx.Result, fetches []*hx.Fetch, answerOf func(*hx.Fetch) ans, checkAge bool) (kind, text string) {
+func (m *entryModel) burstCheck(now int64, results []*hx.Result, rawFetches []*hx.Fetch, answerOf func(*hx.Fetch) ans, checkAge bool) (kind, text string) {
 	m.normalise(now)
+	// one logical upstream contact per client request id (a transport-level retry of the same
+	// request is not a second contact); the earliest physical contact represents it
+	var fetches []*hx.Fetch
+	byReq := map[string]*hx.Fetch{}
+	for _, f := range rawFetches {
+		if _, dup := byReq[f.ReqID]; dup && f.ReqID != "" {
+			continue
+		}
+		byReq[f.ReqID] = f
+		fetches = append(fetches, f)
+	}
+	// a request may fail (no label, error status or broken connection) only if its own upstream contact failed
+	failedOK := func(res *hx.Result) bool {
+		f := byReq[res.ReqID]
+		return f != nil && failingKind(answerOf(f).Kind)
+	}
+	isFailed := func(res *hx.Result) bool { return res.Label == "" && (res.Err != nil || res.Status >= 400) }
 	for _, res := range results {
-		if res.Err != nil {
-			return "request_failed", "request did not complete: " + res.Err.Error()
+		if isFailed(res) && !failedOK(res) {
+			if res.Err != nil {
+				return "request_failed", "request did not complete: " + res.Err.Error()
+			}
+			return "request_failed", fmt.Sprintf("error status %d although its upstream contact did not fail", res.Status)
 		}
 	}
 	switch m.State {
@@ -199,6 +221,9 @@ func (m *entryModel) burstCheck(now int64, results []*hx.Result, fetches []*hx.F
 			return "hfp_contacts_mismatch", fmt.Sprintf("model %s at now=%d: %d requests but %d upstream contacts", m, now, len(results), len(fetches))
 		}
 		for _, res := range results {
+			if isFailed(res) {
+				continue
+			}
 			if res.Label != "hitForPass" {
 				return "hfp_label", fmt.Sprintf("model %s at now=%d but label=%s", m, now, res.Label)
 			}
@@ -234,7 +259,7 @@ func (m *entryModel) burstCheck(now int64, results []*hx.Result, fetches []*hx.F
 	if nFetching == 1 && fetcher.Label != "fetching" {
 		return "fetcher_label", fmt.Sprintf("the first upstream contact belongs to a request labelled %q while another one is labelled fetching", fetcher.Label)
 	}
-	if nFetching == 0 && fetcher.Status < 500 {
+	if nFetching == 0 && !isFailed(fetcher) {
 		return "fetcher_label", fmt.Sprintf("model none at now=%d: the fetcher is labelled %q", now, fetcher.Label)
 	}
 	a := answerOf(ff)
@@ -251,6 +276,9 @@ func (m *entryModel) burstCheck(now int64, results []*hx.Result, fetches []*hx.F
 				return "waiter_not_served_from_fetch", fmt.Sprintf("after fetch %d (cacheable): label=%s fetch=%d", m.Ver, res.Label, res.FetchID)
 			}
 		case stHFP:
+			if isFailed(res) {
+				continue
+			}
 			if res.Label != "hitForPass" {
 				return "waiter_label_after_uncacheable", fmt.Sprintf("after an uncacheable fetch: label=%s", res.Label)
 			}
@@ -265,6 +293,8 @@ func (m *entryModel) burstCheck(now int64, results []*hx.Result, fetches []*hx.F
 	}
 	return "", ""
 }
+
+func failingKind(k string) bool { return k == "abort" || k == "truncate" || k == "hang" }
 
 func labelsOf(results []*hx.Result) []string {
 	out := make([]string, len(results))
